@@ -833,6 +833,108 @@ class Interp:
         self.check_access(n, st, idx, None, what, extent=ext)
         return None
 
+    FIXED_EXTENT_RE = re.compile(r"^(?:const\s+)?std::(?:bitset<\s*(\d+)\s*>|array<.*,\s*(\d+)\s*>)\s*&?$")
+    KEYED_RE = re.compile(r"^(?:const\s+)?(?:QHash|QMap|QMultiHash|QMultiMap|std::map|std::unordered_map|std::multimap|QJsonObject|QJsonValue|QJsonValueRef|QVariantMap|QVariantHash|QCache)\b")
+    CHAR_RANGE = {"char": (-128, 127), "signed char": (-128, 127), "unsigned char": (0, 255), "uchar": (0, 255), "qint8": (-128, 127), "quint8": (0, 255)}
+
+    def index_value(self, idxnode, st):
+        """value of an index expression before its implicit conversion to the (unsigned) index type: a byte of input text read through
+        a plain char is any value the character type has — negative for bytes >= 0x80 where char is signed"""
+        x = idxnode
+        while True:
+            y = skip_copies(x)
+            if isinstance(y, dict) and y.get("k") == "cast" and (y.get("castkind") in ("IntegralCast", "NoOp", "LValueToRValue") or (y.get("ck") or "") == "ImplicitCastExpr") and isinstance(y.get("e"), dict) \
+                    and typ(y).replace("const ", "").strip() not in self.CHAR_RANGE:
+                x = y["e"]
+                continue
+            break
+        inner = skip_copies(x)
+        t = typ(inner).replace("const ", "").replace("&", "").strip() if isinstance(inner, dict) else ""
+        if t in self.CHAR_RANGE:
+            v = self.eval(inner, st)
+            lo, hi = self.CHAR_RANGE[t]
+            if v is None or not all(lin_lower(d, v) >= lo and lin_upper(d, v) <= hi for d in st.dbms()):
+                # a character the analysis does not track: any value of its type when it is a byte of input text (a definite
+                # witness exists), an unknown value of its type otherwise
+                r = self.temp(inner)
+                self.assign(st, r, None, unknown=not self.is_input_element(inner))
+                st.each(lambda d: (d.add_lower(r, lo), d.add_upper(r, hi)))
+                return Lin.sym(r), t
+            return v, t
+        return self.eval(idxnode, st), None
+
+    ELEMENT_READS = ("at", "operator[]", "front", "back", "first", "last", "constFirst", "constLast")
+    TEXT_ACCESSORS = ("QtLogger::LogMessage::message", "QtLogger::LogMessage::function", "QtLogger::LogMessage::file", "QtLogger::LogMessage::category",
+                      "QtLogger::LogMessage::formattedMessage")
+
+    def is_input_text(self, obj, depth=0):
+        """the container holds text chosen by whoever logs: a container parameter of the function (followed to the caller's argument
+        when the function is analysed inlined), or a local initialised once from one / from a message accessor"""
+        o = skip_copies(obj) if isinstance(obj, dict) else None
+        if not isinstance(o, dict) or depth > 4:
+            return False
+        if o.get("k") == "call" and strip_tmpl(o.get("callee") or "") in self.TEXT_ACCESSORS:
+            return True
+        if o.get("k") == "call" and o.get("ck") == "member" and (o.get("callee") or "").split("::")[-1] in ("toUtf8", "toLatin1", "toLocal8Bit", "mid", "left", "right", "trimmed", "simplified", "toLower", "toUpper"):
+            return self.is_input_text(o.get("obj"), depth + 1)
+        if o.get("k") in ("construct", "cast") and len([a for a in (o.get("args") or [o.get("e")]) if isinstance(a, dict) and a.get("k") != "defaultarg"]) == 1:
+            return self.is_input_text([a for a in (o.get("args") or [o.get("e")]) if isinstance(a, dict) and a.get("k") != "defaultarg"][0], depth + 1)
+        if o.get("k") != "ref":
+            return False
+        if o.get("dk") == "param":
+            pa = getattr(self, "param_args", {}).get(o.get("decl"))
+            if pa is not None and getattr(self, "caller", None) is not None:
+                return self.caller.is_input_text(pa, depth + 1)
+            return is_container_type(typ(o))
+        if o.get("dk") == "local":
+            from .facts import single_assignment_init
+            ini = single_assignment_init(self.fn, o.get("decl"))
+            return isinstance(ini, dict) and self.is_input_text(ini, depth + 1)
+        return False
+
+    def is_input_element(self, x, depth=0):
+        x = skip_copies(x) if isinstance(x, dict) else None
+        if not isinstance(x, dict) or depth > 4:
+            return False
+        if x.get("k") == "call" and (x.get("callee") or "").split("::")[-1] in self.ELEMENT_READS:
+            o = x.get("obj") if x.get("ck") == "member" else (x.get("args") or [None])[0]
+            return self.is_input_text(o, depth + 1)
+        if x.get("k") == "ref" and x.get("dk") == "param":
+            pa = getattr(self, "param_args", {}).get(x.get("decl"))
+            written = any(y.get("k") in ("binop", "call") and y.get("op") in ("=", "+=", "-=", "++", "--") and skip_copies((y.get("lhs") or (y.get("args") or [None])[0]) or {}).get("decl") == x.get("decl")
+                          for y in self.fn.all_nodes()) or any(y.get("k") == "unop" and y.get("op") in ("++", "--") and skip_copies(y.get("e") or {}).get("decl") == x.get("decl") for y in self.fn.all_nodes())
+            if pa is not None and getattr(self, "caller", None) is not None and not written:
+                return self.caller.is_input_element(pa, depth + 1)
+        if x.get("k") == "ref" and x.get("dk") == "local":
+            from .facts import single_assignment_init
+            ini = single_assignment_init(self.fn, x.get("decl"))
+            return isinstance(ini, dict) and self.is_input_element(ini, depth + 1)
+        return False
+
+    def fixed_extent_access(self, n, obj, idxnode, st):
+        """operator[] of std::bitset<N> / std::array<T, N> (no range check); operator[] with an integer index on a class the analysis does
+        not model is reported as undecided rather than passed over"""
+        t = typ(obj)
+        m = self.FIXED_EXTENT_RE.match(t.strip())
+        what = "%s[%s]" % (describe(obj), describe(idxnode))
+        if m:
+            ext = int(m.group(1) or m.group(2))
+            self.eval(obj, st)
+            v, ct = self.index_value(idxnode, st)
+            self.check_access(n, st, v, None, what + (" (index of type %s)" % ct if ct else ""), extent=ext)
+            return True
+        if is_container_type(t) or self.KEYED_RE.match(t.strip()):
+            return False
+        it = typ(idxnode).replace("const ", "").replace("&", "").strip()
+        if is_int_type(it) or it in self.CHAR_RANGE:
+            self.eval(obj, st)
+            self.eval(idxnode, st)
+            if "*" in t or re.search(r"\[\d*\]", t):
+                return False
+            self.ob("access", n, None, "%s: operator[] of %s, whose extent the analysis does not model" % (what, t), "access|%s|%s" % (self.fn.name.split("::")[-1], what))
+            return True
+        return False
+
     def eval_construct(self, n, st):
         self.check_raw_extents(n, st)
         if is_container_type(n.get("class", "")) or n.get("class") in ("QString", "QByteArray"):
@@ -1139,6 +1241,10 @@ class Interp:
             else:
                 self.check_access(n, st, idx, ls, what)
             return None
+        if op == "[]" and len(args) == 2:
+            r = self.fixed_extent_access(n, args[0], args[1], st)
+            if r:
+                return None
         if op == "=" and len(args) == 2:
             if is_container_type(typ(args[0])):
                 return self.assign_container(args[0], args[1], st)
@@ -1435,6 +1541,7 @@ class Interp:
         sub.ctx = ["%s:%d" % (self.fn.loc().rsplit(":", 1)[0].split("/")[-1], call.get("l", 0))] + self.ctx
         sub.tracked_bools = sub.tracked_bools | self.tracked_bools
         sub.ret_as_cond = True
+        sub.caller, sub.param_args = self, {p_["decl"]: a_ for p_, a_ in zip(f.params, args)}
         self.bind_params(f, args, vals, st)
         flow = sub.exec(f.body, st)
         ts, fs = [], []
@@ -1475,6 +1582,7 @@ class Interp:
         sub.depth = self.depth + 1
         sub.ctx = ["%s:%d" % (self.fn.loc().rsplit(":", 1)[0].split("/")[-1], call.get("l", 0))] + self.ctx
         sub.tracked_bools = sub.tracked_bools | self.tracked_bools
+        sub.caller, sub.param_args = self, {p_["decl"]: a_ for p_, a_ in zip(f.params, args)}
         back = self.bind_params(f, args, vals, st)
         flow = sub.exec(f.body, st.copy())
         rets = list(flow.ret)
